@@ -50,6 +50,14 @@ macro_rules! hdr_harness {
         });
     };
 }
+/// Net types in the quick tier (the catalogue keeps them in `t` because the packed-image / Vec harness
+/// families of C04 would be instantiated for them as well): V4 and V6 socket addresses, both IpAddr variants.
+pub mod nq {
+    use super::*;
+    wire_harness!(n_socketaddr_v4, std::net::SocketAddr, 18, 0);
+    wire_harness!(n_socketaddr_v6, std::net::SocketAddr, 30, 1);
+    wire_harness!(n_ipaddr, std::net::IpAddr, 18, 0);
+}
 pub mod hq {
     use super::*;
     use crate::dtypes::*;
